@@ -52,6 +52,9 @@ type lifeCase struct {
 	// WriteTimeoutMs: Server.WriteTimeout (0: 3 s). A short value combined with slow handlers checks that the time a handler
 	// takes does not eat into the time allowed for writing its reply.
 	WriteTimeoutMs int `json:"write_timeout_ms,omitempty"`
+	// AcceptDelayMs (only with OnAccept): the accept callback takes this long after it has been entered, so the following steps -
+	// in particular shutdown and cancel - happen while a connection is still being accepted
+	AcceptDelayMs int `json:"accept_delay_ms,omitempty"`
 }
 
 // slowListener wraps accepted connections so that Write is delayed.
@@ -234,11 +237,15 @@ func runLifeOnce(c lifeCase) harness.Result {
 	if c.Callbacks&cbAccept != 0 {
 		s.OnAcceptConnFunc = func(ctx context.Context, ra net.Addr, n uint64) error {
 			ev.mu.Lock()
-			defer ev.mu.Unlock()
 			ix := ev.nAccept
 			ev.nAccept++
 			ev.accepts[ra.String()] = append(ev.accepts[ra.String()], n)
-			if ev.rejectIx[ix] {
+			reject := ev.rejectIx[ix]
+			ev.mu.Unlock()
+			if c.AcceptDelayMs > 0 {
+				time.Sleep(time.Duration(c.AcceptDelayMs) * time.Millisecond)
+			}
+			if reject {
 				return errors.New("rejected by policy")
 			}
 			return nil
@@ -611,6 +618,14 @@ func genLife(t *rapid.T) lifeCase {
 			c.WriteDelayMs = rapid.SampledFrom([]int{60, 75, 120}).Draw(t, "write_delay")
 		}
 	}
+	if c.Callbacks&cbAccept != 0 && rapid.IntRange(0, 2).Draw(t, "slow_accept") == 0 {
+		c.AcceptDelayMs = rapid.SampledFrom([]int{2, 10, 25}).Draw(t, "accept_delay")
+		if rapid.Bool().Draw(t, "connect_last") {
+			// a connection is still being accepted when the run ends
+			last := c.Steps[len(c.Steps)-1]
+			c.Steps = append(c.Steps[:len(c.Steps)-1], step{Op: "connect", Client: connected % k}, last)
+		}
+	}
 	if c.WriteDelayMs == 0 && rapid.IntRange(0, 3).Draw(t, "short_write_timeout") == 0 {
 		// handlers of 60/80 ms against a 50 ms write timeout
 		c.WriteTimeoutMs = 50
@@ -627,6 +642,26 @@ var chkLife = harness.Define("server-lifecycle", genLife, runLife)
 
 func TestRandom(t *testing.T) {
 	chkLife.Rapid(t, harness.Pick(24, 1200))
+}
+
+// TestEndDuringAccept: shutdown / cancellation arrive while the accept callback is still running for the newest connection.
+func TestEndDuringAccept(t *testing.T) {
+	idx := 0
+	for _, cb := range []int{cbAccept, cbAccept | cbClose, 15, cbAccept | cbError} {
+		for _, delay := range []int{5, 25} {
+			for _, end := range []string{"shutdown", "cancel"} {
+				idx++
+				if !harness.Mine(idx) {
+					continue
+				}
+				c := lifeCase{Callbacks: cb, Seed: uint64(idx), AcceptDelayMs: delay}
+				c.Steps = []step{{Op: "connect", Client: 0}, {Op: "request", Client: 0}, {Op: "connect", Client: 1}, {Op: end}}
+				if !chkLife.Eval(t, c) {
+					return
+				}
+			}
+		}
+	}
 }
 
 // TestCallbackCombinations: every set/unset combination of the four callbacks, each with the same two scripts
